@@ -36,8 +36,30 @@ theorem counterVec_grows (r : Reporter) (name : Bytes) (keys : List Bytes) : Gro
     · exact Grows.refl r
     · exact ⟨fun key f h => lookup_cons_stable _ _ _ hnone key f h, fun _ _ h => h, fun _ _ h => h⟩
 
+theorem counterVecD_grows (r : Reporter) (name : Bytes) (keys : List Bytes) (desc : Bytes) :
+    Grows r (counterVecD r name keys desc).1 := by
+  unfold counterVecD
+  split
+  · exact Grows.refl r
+  · next hnone =>
+    dsimp only
+    split
+    · exact Grows.refl r
+    · exact ⟨fun key f h => lookup_cons_stable _ _ _ hnone key f h, fun _ _ h => h, fun _ _ h => h⟩
+
 theorem gaugeVec_grows (r : Reporter) (name : Bytes) (keys : List Bytes) : Grows r (gaugeVec r name keys).1 := by
   unfold gaugeVec
+  split
+  · exact Grows.refl r
+  · next hnone =>
+    dsimp only
+    split
+    · exact Grows.refl r
+    · exact ⟨fun _ _ h => h, fun key f h => lookup_cons_stable _ _ _ hnone key f h, fun _ _ h => h⟩
+
+theorem gaugeVecD_grows (r : Reporter) (name : Bytes) (keys : List Bytes) (desc : Bytes) :
+    Grows r (gaugeVecD r name keys desc).1 := by
+  unfold gaugeVecD
   split
   · exact Grows.refl r
   · next hnone =>
@@ -85,6 +107,8 @@ theorem vecFor_grows (cfg : Cfg) (r : Reporter) (kind : UseKind) (name : Bytes) 
   | histogram spec => exact histogramVec_grows _ r name keys _
   | counterAs => exact counterVec_grows r name keys
   | gaugeAs => exact gaugeVec_grows r name keys
+  | counterAsD desc => exact counterVecD_grows r name keys desc
+  | gaugeAsD desc => exact gaugeVecD_grows r name keys desc
 
 theorem finish_static_alloc (cfg : Cfg) (p : Reporter × VecResult) (tags : Tags) : Grows p.1 (finishAlloc cfg p tags).1 := by
   obtain ⟨r1, res⟩ := p
@@ -192,6 +216,14 @@ theorem vecFor_hit (cfg : Cfg) (r : Reporter) (kind : UseKind) (name : Bytes) (k
     simp only [Spec.C17.typeOf] at h
     obtain ⟨f, hf⟩ := h
     exact ⟨f, by simp [vecFor, gaugeVec, hf]⟩
+  | counterAsD desc =>
+    simp only [Spec.C17.typeOf] at h
+    obtain ⟨f, hf⟩ := h
+    exact ⟨f, by simp [vecFor, counterVecD, hf]⟩
+  | gaugeAsD desc =>
+    simp only [Spec.C17.typeOf] at h
+    obtain ⟨f, hf⟩ := h
+    exact ⟨f, by simp [vecFor, gaugeVecD, hf]⟩
 
 theorem hit_usable (cfg : Cfg) (r : Reporter) (kind : UseKind) (name : Bytes) (tags : Tags)
     (h : Hit cfg r kind (name, keysOf tags)) : ∃ k, (useMetric cfg r kind name tags).2 = .usable k := by
@@ -211,6 +243,16 @@ theorem counterVec_some_hit (r : Reporter) (name : Bytes) (keys : List Bytes) (f
     | err e => simp [counterVec, hl, hr] at h
     | ok reg' => exact ⟨mkFamily name keys .counter [], by simp [counterVec, hl, hr, lookupKey_cons]⟩
 
+theorem counterVecD_some_hit (r : Reporter) (name : Bytes) (keys : List Bytes) (desc : Bytes) (f : Family)
+    (h : (counterVecD r name keys desc).2 = .vec (some f)) :
+    ∃ f', lookupKey (counterVecD r name keys desc).1.counters (name, keys) = some f' := by
+  cases hl : lookupKey r.counters (name, keys) with
+  | some f0 => exact ⟨f0, by simp [counterVecD, hl]⟩
+  | none =>
+    cases hr : register r.reg (mkFamilyD name keys .counter [] desc) with
+    | err e => simp [counterVecD, hl, hr] at h
+    | ok reg' => exact ⟨mkFamilyD name keys .counter [] desc, by simp [counterVecD, hl, hr, lookupKey_cons]⟩
+
 theorem gaugeVec_some_hit (r : Reporter) (name : Bytes) (keys : List Bytes) (f : Family)
     (h : (gaugeVec r name keys).2 = .vec (some f)) : ∃ f', lookupKey (gaugeVec r name keys).1.gauges (name, keys) = some f' := by
   cases hl : lookupKey r.gauges (name, keys) with
@@ -219,6 +261,16 @@ theorem gaugeVec_some_hit (r : Reporter) (name : Bytes) (keys : List Bytes) (f :
     cases hr : register r.reg (mkFamily name keys .gauge []) with
     | err e => simp [gaugeVec, hl, hr] at h
     | ok reg' => exact ⟨mkFamily name keys .gauge [], by simp [gaugeVec, hl, hr, lookupKey_cons]⟩
+
+theorem gaugeVecD_some_hit (r : Reporter) (name : Bytes) (keys : List Bytes) (desc : Bytes) (f : Family)
+    (h : (gaugeVecD r name keys desc).2 = .vec (some f)) :
+    ∃ f', lookupKey (gaugeVecD r name keys desc).1.gauges (name, keys) = some f' := by
+  cases hl : lookupKey r.gauges (name, keys) with
+  | some f0 => exact ⟨f0, by simp [gaugeVecD, hl]⟩
+  | none =>
+    cases hr : register r.reg (mkFamilyD name keys .gauge [] desc) with
+    | err e => simp [gaugeVecD, hl, hr] at h
+    | ok reg' => exact ⟨mkFamilyD name keys .gauge [] desc, by simp [gaugeVecD, hl, hr, lookupKey_cons]⟩
 
 theorem summaryVec_some_hit (v : Variant) (r : Reporter) (name : Bytes) (keys : List Bytes) (f : Family)
     (h : (summaryVec v r name keys).2 = .vec (some f)) :
@@ -267,6 +319,8 @@ theorem vecFor_some_hit (cfg : Cfg) (r : Reporter) (kind : UseKind) (name : Byte
   | histogram spec => simpa [Spec.C17.typeOf, vecFor] using histogramVec_some_hit _ r name keys _ f h
   | counterAs => simpa [Spec.C17.typeOf, vecFor] using counterVec_some_hit r name keys f h
   | gaugeAs => simpa [Spec.C17.typeOf, vecFor] using gaugeVec_some_hit r name keys f h
+  | counterAsD desc => simpa [Spec.C17.typeOf, vecFor] using counterVecD_some_hit r name keys desc f h
+  | gaugeAsD desc => simpa [Spec.C17.typeOf, vecFor] using gaugeVecD_some_hit r name keys desc f h
 
 /-- a first use that returned a usable metric leaves a cached vector of its flavour behind -/
 theorem usable_hit (cfg : Cfg) (r : Reporter) (kind : UseKind) (name : Bytes) (tags : Tags)
@@ -313,6 +367,20 @@ theorem counterVec_cached (r : Reporter) (name : Bytes) (keys : List Bytes) (f :
       simp only [counterVec, hl, hr, VecResult.vec.injEq, Option.some.injEq] at h ⊢
       simp [lookupKey_cons, h]
 
+theorem counterVecD_cached (r : Reporter) (name : Bytes) (keys : List Bytes) (desc : Bytes) (f : Family)
+    (h : (counterVecD r name keys desc).2 = .vec (some f)) :
+    lookupKey (counterVecD r name keys desc).1.counters (name, keys) = some f := by
+  cases hl : lookupKey r.counters (name, keys) with
+  | some f0 =>
+    simp only [counterVecD, hl] at h ⊢
+    injection h
+  | none =>
+    cases hr : register r.reg (mkFamilyD name keys .counter [] desc) with
+    | err e => simp [counterVecD, hl, hr] at h
+    | ok reg' =>
+      simp only [counterVecD, hl, hr, VecResult.vec.injEq, Option.some.injEq] at h ⊢
+      simp [lookupKey_cons, h]
+
 theorem gaugeVec_cached (r : Reporter) (name : Bytes) (keys : List Bytes) (f : Family)
     (h : (gaugeVec r name keys).2 = .vec (some f)) :
     lookupKey (gaugeVec r name keys).1.gauges (name, keys) = some f := by
@@ -325,6 +393,20 @@ theorem gaugeVec_cached (r : Reporter) (name : Bytes) (keys : List Bytes) (f : F
     | err e => simp [gaugeVec, hl, hr] at h
     | ok reg' =>
       simp only [gaugeVec, hl, hr, VecResult.vec.injEq, Option.some.injEq] at h ⊢
+      simp [lookupKey_cons, h]
+
+theorem gaugeVecD_cached (r : Reporter) (name : Bytes) (keys : List Bytes) (desc : Bytes) (f : Family)
+    (h : (gaugeVecD r name keys desc).2 = .vec (some f)) :
+    lookupKey (gaugeVecD r name keys desc).1.gauges (name, keys) = some f := by
+  cases hl : lookupKey r.gauges (name, keys) with
+  | some f0 =>
+    simp only [gaugeVecD, hl] at h ⊢
+    injection h
+  | none =>
+    cases hr : register r.reg (mkFamilyD name keys .gauge [] desc) with
+    | err e => simp [gaugeVecD, hl, hr] at h
+    | ok reg' =>
+      simp only [gaugeVecD, hl, hr, VecResult.vec.injEq, Option.some.injEq] at h ⊢
       simp [lookupKey_cons, h]
 
 /-- a usable result of `Register*` + `With(tags)`: the vector came back, its series key is `k`, and
